@@ -151,9 +151,9 @@ def run(chk):
                     'translate/cdispatch.py (C dispatch initialisers -> Instr)',
                     'hand model Prelude/Machine.lean Mem128 (pagingtracer.Memory + PagingTracer.write_port) tied by correspondence',
                     'C handler bodies: differential execution against the generated model only']
-    chk.assumptions += ['range invariant is proved for every closure the generic tactic closes; closures listed in '
-                        'translate/gen_range.py PENDING are excluded from the lifted theorem (ranges_preserved_partial) and are '
-                        'covered by the per-slot differential + oracle only',
+    chk.assumptions += ['range invariant is proved for every closure of both simulators with every well-formed argument tuple '
+                        '(ranges_preserved, no closure excluded: translate/gen_range.py PENDING is empty; the closures in its '
+                        'MANUAL table are proved by the closure-independent tactic rinv_manual of Proofs/RangeManual.lean)',
                         'C simulators: ROM/range/paging guards are covered by correspondence and e2e, not by theorem',
                         'skoolutils.Memory (@bank/#BANK) is not modelled']
     simulator, cmiosimulator, pagingtracer = fresh_import('skoolkit.simulator', 'skoolkit.cmiosimulator', 'skoolkit.pagingtracer')
